@@ -736,6 +736,7 @@ pub fn slow_network_scenario(r: &mut Report, seed: u64) {
     let signer = SigningKey::from_bytes(&rng.array::<32>());
     let mut failed: Vec<Value> = vec![];
     let puts = 40;
+    let log = super::net::log_exchanges(&w, x.addr);
     for k in 0..puts {
         let value = rng.blob(3, 40);
         let ih = Id::from(rng.array::<20>());
@@ -750,29 +751,36 @@ pub fn slow_network_scenario(r: &mut Report, seed: u64) {
             }
         };
         let before = *acks_sent.borrow();
-        let t_now = super::net::snapshot(&w, &x).map(|s| s.request_timeout.as_nanos() as u64).unwrap_or(0);
+        let mark = log.lock().unwrap_or_else(|e| e.into_inner()).len();
         let extras: Vec<Node> = if pool.is_empty() { vec![] } else { (0..k).map(|j| pool[j % pool.len()].clone()).collect() };
         let rx = put_raw(&x.dht, request, if extras.is_empty() { None } else { Some(extras.into_boxed_slice()) });
-        let res = w.block_on(async move { rx.recv_async().await }, 300 * SEC);
-        let t_after = super::net::snapshot(&w, &x).map(|s| s.request_timeout.as_nanos() as u64).unwrap_or(0);
+        // (the node's timeout moves with every answer it takes off the in-flight list - a run of similar round
+        // trips shrinks the deviation term -, so it is read at every iteration of the node's loop during the put;
+        // an acknowledgement counts if, by that timeline, its store request was never older than the timeout in
+        // force until the acknowledgement was received)
+        let mut task = Task::new(w.now(), async move { rx.recv_async().await });
+        let (_, line) = super::net::run_until_sampling_timeout(&w, &x, 300 * SEC, |w| task.poll(w.now()));
+        let res = task.result.take();
         let acked = *acks_sent.borrow() - before;
+        let stores: Vec<super::net::Exchange> = log.lock().unwrap_or_else(|e| e.into_inner())[mark..].iter().filter(|e| matches!(e.name.as_str(), "put" | "announce_peer" | "announce_signed_peer")).cloned().collect();
+        let in_time: Vec<&super::net::Exchange> = stores.iter().filter(|e| e.answered.map(|t_a| super::net::alive_until_answered(&line, e.sent, t_a)).unwrap_or(false)).collect();
         if std::env::var("MLV_DEBUG").is_ok() {
             let sn = super::net::snapshot(&w, &x);
-            eprintln!("put {k}: acked={acked} result_ok={} timeout {}..{} ms inflight after={:?}", matches!(res, Some(Ok(Ok(_)))), t_now / MS, t_after / MS, sn.map(|s| s.inflight));
+            eprintln!("put {k}: acked={acked} in time by own clock={} result_ok={} inflight after={:?}", in_time.len(), matches!(res, Some(Ok(Ok(_)))), sn.map(|s| s.inflight));
         }
         r.count("slow_network/puts");
-        // judged only when the node's own timeout stayed above the slowest possible round trip throughout
-        if acked >= 1 && t_now.min(t_after) > 2 * lat_max + 20 * MS {
+        if !in_time.is_empty() {
             r.count("slow_network/puts_acknowledged_within_the_adapted_timeout");
             if !matches!(res, Some(Ok(Ok(_)))) {
-                failed.push(json!({"put": k, "result": format!("{res:?}"), "acknowledgements_sent": acked, "request_timeout_ms": [t_now / MS, t_after / MS]}));
+                let e = in_time[0];
+                failed.push(json!({"put": k, "result": format!("{res:?}"), "acknowledgements_sent": acked, "acknowledgements_in_time_by_the_nodes_own_clock": in_time.len(), "round_trip_of_one_ms": (e.answered.unwrap_or(0) - e.sent) / MS, "smallest_request_timeout_meanwhile_ms": line.iter().filter(|(t, _)| *t >= e.sent && *t <= e.answered.unwrap_or(0)).map(|(_, to)| to / MS).min()}));
             }
         }
         w.run_for(rng.below(800) * MS);
     }
     r.nontrivial(mix(seed, n as u64));
     if !failed.is_empty() {
-        r.violation("result/error-despite-ack/slow-network", "every store request of the put was acknowledged, and every acknowledgement arrived within the node's own (adapted) request timeout, yet the put did not return Ok", case.clone(), json!({"failed": failed, "request_timeout_after_warm_up_ms": timeout / MS}));
+        r.violation("result/error-despite-ack/slow-network", "a store request of the put was acknowledged within the node's own (adapted) request timeout - read at every iteration of the node's loop -, yet the put did not return Ok", case.clone(), json!({"failed": failed, "request_timeout_after_warm_up_ms": timeout / MS}));
     }
     drop(x);
     for (thread, loc, msg) in crate::take_panics() {
